@@ -747,28 +747,6 @@ fn sym_to_string_literal(sym: Symbol) -> ExprNodeId {
     Expr::Literal(Literal::String(sym)).into_id_without_span()
 }
 
-/// Extract the variable name from a `Pattern`, returning a string literal.
-fn pattern_to_string_literal(pat: &Pattern) -> ExprNodeId {
-    sym_to_string_literal(pattern_to_symbol(pat))
-}
-
-/// Extract the primary symbol from a `Pattern`.
-fn pattern_to_symbol(pat: &Pattern) -> Symbol {
-    match pat {
-        Pattern::Single(name) => *name,
-        Pattern::Placeholder => "_".to_symbol(),
-        Pattern::Tuple(pats) => pats
-            .first()
-            .map(pattern_to_symbol)
-            .unwrap_or_else(|| "_".to_symbol()),
-        Pattern::Record(fields) => fields
-            .first()
-            .map(|(name, _)| *name)
-            .unwrap_or_else(|| "_".to_symbol()),
-        Pattern::Error => "_".to_symbol(),
-    }
-}
-
 /// Generate code combinator calls for a `let` binding with an arbitrary pattern.
 ///
 /// For simple patterns (`Single`, `Placeholder`), emits `code_let(name, val, body)`.
@@ -791,12 +769,38 @@ fn translate_let_pattern(
             make_apply("code_let", vec![name_lit, translated_val, translated_body])
         }
         Pattern::Tuple(pats) => translate_let_tuple_pattern(pats, translated_val, translated_body),
-        Pattern::Record(_) | Pattern::Error => {
-            // Fallback: use the primary symbol.
-            let name_lit = pattern_to_string_literal(pat);
+        Pattern::Record(fields) => {
+            translate_let_record_pattern(fields, translated_val, translated_body)
+        }
+        Pattern::Error => {
+            // A pattern that failed to parse binds nothing (the parse error is reported).
+            let name_lit = sym_to_string_literal("_".to_symbol());
             make_apply("code_let", vec![name_lit, translated_val, translated_body])
         }
     }
+}
+
+/// Translate a `let` with a record pattern: the value is bound to a temp name once, and every
+/// field's sub-pattern is bound to the access of that field (`let {k = p} = v` is
+/// `let tmp = v` followed by `let p = tmp.k`).
+fn translate_let_record_pattern(
+    fields: &[(Symbol, Pattern)],
+    translated_val: ExprNodeId,
+    translated_body: ExprNodeId,
+) -> ExprNodeId {
+    let tmp = fresh_desugar_name();
+    let body = fields.iter().rev().fold(translated_body, |body, (key, sub)| {
+        let tmp_var = make_apply_str("code_var", tmp);
+        let field = make_apply(
+            "code_field_access",
+            vec![tmp_var, sym_to_string_literal(*key)],
+        );
+        translate_let_pattern(sub, field, body)
+    });
+    make_apply(
+        "code_let",
+        vec![sym_to_string_literal(tmp), translated_val, body],
+    )
 }
 
 // Thread-local counter for generating unique temp variable names.
@@ -826,8 +830,8 @@ fn translate_let_tuple_pattern(
 ) -> ExprNodeId {
     // Determine the top-level names and collect any nested sub-pattern work.
     let mut top_names: Vec<ExprNodeId> = Vec::with_capacity(pats.len());
-    // (position, sub_patterns, temp_name) for nested tuples.
-    let mut nested: Vec<(usize, &[Pattern], Symbol)> = Vec::new();
+    // (position, sub_pattern, temp_name) for nested tuples and records.
+    let mut nested: Vec<(usize, &Pattern, Symbol)> = Vec::new();
 
     for (i, pat) in pats.iter().enumerate() {
         match pat {
@@ -837,14 +841,13 @@ fn translate_let_tuple_pattern(
             Pattern::Placeholder => {
                 top_names.push(sym_to_string_literal("_".to_symbol()));
             }
-            Pattern::Tuple(sub_pats) => {
+            Pattern::Tuple(_) | Pattern::Record(_) => {
                 let tmp = fresh_desugar_name();
                 top_names.push(sym_to_string_literal(tmp));
-                nested.push((i, sub_pats.as_slice(), tmp));
+                nested.push((i, pat, tmp));
             }
-            Pattern::Record(_) | Pattern::Error => {
-                let name = pattern_to_symbol(pat);
-                top_names.push(sym_to_string_literal(name));
+            Pattern::Error => {
+                top_names.push(sym_to_string_literal("_".to_symbol()));
             }
         }
     }
@@ -853,9 +856,9 @@ fn translate_let_tuple_pattern(
     // For each nested tuple (processed in reverse to build inside-out),
     // wrap: translate_let_tuple_pattern(sub_pats, code_var(tmp), current_body)
     let mut body = translated_body;
-    for (_i, sub_pats, tmp) in nested.into_iter().rev() {
+    for (_i, sub_pat, tmp) in nested.into_iter().rev() {
         let tmp_var = make_apply_str("code_var", tmp);
-        body = translate_let_tuple_pattern(sub_pats, tmp_var, body);
+        body = translate_let_pattern(sub_pat, tmp_var, body);
     }
 
     let names_arr = Expr::ArrayLiteral(top_names).into_id_without_span();
